@@ -20,6 +20,7 @@ from symx.core import rv, frac, prove, model_value
 from pySDC.helpers.spectral_helper import ChebychevHelper, UltrasphericalHelper, SpectralHelper
 
 PID = 'C17'
+BOUNDS = {'quick': dict(N='2..8', derivative_orders='1..3', intervals='[-1,1] [0,1] [-2,5]'), 'thorough': dict(N='2..16')}
 
 
 def describe(rep):
